@@ -30,6 +30,10 @@ Fourth output, lean/Nstd/Generated/ArgsStr.lean: `String::length(const char*)`, 
 const char*, usize)` of include/nstd/String.hpp (`while`, comma in a `for` step, pointer `<`, `(const uchar*)` reads); lean/Nstd/Args/PropsStr.lean
 proves them equal to `strlenL`, `findL`, `cmpN` -- the functions the primitives `Env.strlen / strfind / cmpEq` of the translated `read` are.
 
+Fifth output, lean/Nstd/Generated/ArgsDmn.lean: `Process::daemonize(const String& logFile)` over the descriptor table of KernelFail.lean
+(`::open(logFile, O_CREAT | O_WRONLY | .., ..)` and `fork()` answered by oracles, `VERIFY(dup2(fd, STDOUT_FILENO) != -1)`, `VERIFY(setsid() != -1)`,
+`exit(0)`; lean/Nstd/Args/CSemDmn.lean); lean/Nstd/Args/PropsDmn.lean proves it equal to `Kernel.daemonizeFds`.
+
 Anything outside the understood subset is REFUSED (exception -> the check reports a broken tie).
 
 Translation scheme (assumptions, listed in the MANIFEST note):
@@ -55,6 +59,7 @@ OUT = VERIF / "lean" / "Nstd" / "Generated" / "ArgsCode.lean"
 OUT_PROC = VERIF / "lean" / "Nstd" / "Generated" / "ArgsProc.lean"
 OUT_SEL = VERIF / "lean" / "Nstd" / "Generated" / "ArgsSel.lean"
 OUT_STR = VERIF / "lean" / "Nstd" / "Generated" / "ArgsStr.lean"
+OUT_DMN = VERIF / "lean" / "Nstd" / "Generated" / "ArgsDmn.lean"
 
 
 class Refuse(Exception):
@@ -224,9 +229,10 @@ TYPES = {
     ("uint32",): "usize",
     ("uint",): "usize",
     ("fd_set",): "fdset",
+    ("pid_t",): "int",
 }
 BINPREC = [["||"], ["&&"], ["|"], ["^"], ["&"], ["==", "!="], ["<", ">", "<=", ">="], ["<<", ">>"], ["+", "-"], ["*", "/", "%"]]
-ALLOWED_BIN = {"||", "&&", "&", "==", "!=", "<", ">", "+", "-"}
+ALLOWED_BIN = {"||", "&&", "&", "|", "==", "!=", "<", ">", "+", "-"}
 
 
 class Parser:
@@ -565,9 +571,9 @@ LEAN_KEYWORDS = {"end", "at", "from", "fun", "in", "do", "then", "else", "if", "
                  "where", "by", "def", "instance", "structure", "class", "variable", "local", "private", "mutual", "section",
                  "namespace", "import", "theorem", "example", "calc", "for", "return", "unless", "try", "catch", "finally", "mut",
                  "nomatch", "using", "prefix", "infix", "notation", "macro", "syntax", "deriving", "extends", "universe", "set_option"}
-LEAN_TYPE = {"char": "Nat", "fd": "Nat", "fdset": "List Nat", "rsel": "ReadSel.RS", "evs": "List ReadSel.Ev", "penv": "PEnv", "kern": "K", "cptr": "Ptr", "argvp": "Nat", "optp": "Nat", "usize": "Nat", "int": "Int", "bool": "Bool", "string": "List Nat",
+LEAN_TYPE = {"fdtable": "Kernel.FdTable", "optnat": "Option Nat", "char": "Nat", "fd": "Nat", "fdset": "List Nat", "rsel": "ReadSel.RS", "evs": "List ReadSel.Ev", "penv": "PEnv", "kern": "K", "cptr": "Ptr", "argvp": "Nat", "optp": "Nat", "usize": "Nat", "int": "Int", "bool": "Bool", "string": "List Nat",
              "strlist": "List (List Nat)"}
-LEAN_DEFAULT = {"char": "0", "fd": "0", "fdset": "[]", "rsel": "⟨0, 0, [], [], false, false⟩", "evs": "[]", "penv": "[]", "kern": "⟨[], []⟩", "cptr": "Ptr.null", "argvp": "0", "optp": "0", "usize": "0", "int": "0", "bool": "false", "string": "[]", "strlist": "[]"}
+LEAN_DEFAULT = {"fdtable": "(fun _ => none)", "optnat": "none", "char": "0", "fd": "0", "fdset": "[]", "rsel": "⟨0, 0, [], [], false, false⟩", "evs": "[]", "penv": "[]", "kern": "⟨[], []⟩", "cptr": "Ptr.null", "argvp": "0", "optp": "0", "usize": "0", "int": "0", "bool": "false", "string": "[]", "strlist": "[]"}
 
 
 def fld(name):
@@ -599,6 +605,7 @@ class Fn:
         self.members = set(members)
         self.proc = False                                      # the Process-object functions: syscalls, casts, errno
         self.sel = False                                       # read(buffer, length, streams): fd_set, select, ::read on a pipe
+        self.dmn = False                                       # daemonize: descriptor table ghost, ::open, dup2, fork, setsid, exit
         self.callees = {}                                      # member functions that may be called: C++ name -> (Lean name, parameter names)
         self.blocks = []                                       # Lean definitions in dependency order
         self.nblk = self.ntmp = self.nloop = 0
@@ -800,6 +807,22 @@ class Fn:
                     self.touch(m)
                 t = self.tmp()
                 return (f"match {lean} E s with\n| some (.ret {t} s) =>\n{ind(k('bool', t))}\n| _ => none")
+            if self.dmn and name == "::open" and len(args) == 3 and args[0] == ("var", "logFile"):
+                ids = set()
+                def collect(x):
+                    if isinstance(x, tuple):
+                        if x and x[0] == "var":
+                            ids.add(x[1])
+                        else:
+                            for y in x:
+                                collect(y)
+                collect(args[1])
+                if not {"O_CREAT", "O_WRONLY"} <= ids:
+                    raise Refuse(f"{self.name}: ::open without O_CREAT | O_WRONLY")
+                t = self.tmp()
+                return f"let {t} := sysOpen s.openRes s.tag s.tbl\n" + self.update("tbl", f"{t}.2", lambda: k("int", f"{t}.1"))
+            if self.dmn and name == "fork" and not args:
+                return k("int", "s.forkRes")
             if self.sel and name == "FD_ISSET" and len(args) == 2 and args[1][0] == "addr" and self.vars.get(args[1][1]) == "fdset":
                 st = args[1][1]
                 def k1(t1, x1):
@@ -1109,7 +1132,7 @@ class Fn:
             raise Refuse(f"{self.name}: method `{m}` of a {ty}")
         if kind == "call" and self.proc:
             name, args = e[1], e[2]
-            if name == "::close" and len(args) == 1:
+            if name == "::close" and len(args) == 1 and not self.dmn:
                 def k1(t1, x1):
                     if t1 != "int":
                         raise Refuse(f"{self.name}: ::close({t1})")
@@ -1121,6 +1144,26 @@ class Fn:
                         raise Refuse(f"{self.name}: ::kill({t1}, SIGKILL)")
                     return self.update("k", f"K.kill s.k {x1} SIGKILL", lambda: k.text)
                 return self.cexpr(args[0], k1)
+            if self.dmn and name == "VERIFY" and len(args) == 1 and args[0][0] == "bin" and args[0][1] == "!=" and args[0][3] == ("num", -1) \
+                    and args[0][2][0] == "call":
+                cname, cargs = args[0][2][1], args[0][2][2]
+                if cname == "dup2" and len(cargs) == 2 and cargs[1][0] == "var" and cargs[1][1] in ("STDOUT_FILENO", "STDERR_FILENO"):
+                    def k1(t1, x1):
+                        if t1 != "int":
+                            raise Refuse(f"{self.name}: dup2({t1}, ..)")
+                        return self.update("tbl", f"sysDup2 {x1} {cargs[1][1]} s.tbl", lambda: k.text)
+                    return self.cexpr(cargs[0], k1)
+                if cname == "setsid" and not cargs:
+                    return self.update("sid", "true", lambda: k.text)
+                raise Refuse(f"{self.name}: VERIFY({cname}(..) != -1)")
+            if self.dmn and name == "::close" and len(args) == 1:
+                def k1(t1, x1):
+                    if t1 != "int":
+                        raise Refuse(f"{self.name}: ::close({t1})")
+                    return self.update("tbl", f"sysClose {x1} s.tbl", lambda: k.text)
+                return self.cexpr(args[0], k1)
+            if self.dmn and name == "exit" and args == [("num", 0)]:
+                return self.update("exited", "some 0", lambda: "some (.ret false s)")       # does not return: what follows is dropped
             if self.sel and name == "FD_ZERO" and len(args) == 1 and args[0][0] == "addr" and self.vars.get(args[0][1]) == "fdset":
                 return self.update(args[0][1], "[]", lambda: k.text)
             if self.sel and name == "FD_SET" and len(args) == 2 and args[1][0] == "addr" and self.vars.get(args[1][1]) == "fdset":
@@ -1483,6 +1526,28 @@ def generate_str(repo):
     return "\n".join(out)
 
 
+def generate_dmn(repo):
+    """bool Process::daemonize(const String& logFile)"""
+    cpp = posix_branch(scan((Path(repo) / "src/Process.cpp").read_text()))
+    body = parse_body(find_body(cpp, ["bool", "Process", "::", "daemonize", "(", "const", "String", "&", "logFile", ")"],
+                                "Process::daemonize"), "daemonize")
+    body = rename_locals(body, ["fd", "childPid"], "daemonize")
+    f = Fn("daemonize", "DS", "bool", {}, {}, {}, False)
+    f.proc = f.dmn = True
+    f.declare(body)
+    f.vars.update({"tbl": "fdtable", "tag": "usize", "openRes": "optnat", "forkRes": "int", "exited": "optnat", "sid": "bool"})
+    allvars = dict(f.vars)
+    blocks = f.function(body, "`static bool Process::daemonize(const String& logFile)`")
+    if f.vars != allvars:
+        raise Refuse("daemonize: undeclared variable")
+    rec = ("structure DS where\n" + "".join(f"  {fld(v)} : {LEAN_TYPE[t]}\n" for v, t in allvars.items()))
+    out = ["/- generated by tools/gen_args.py from src/Process.cpp — do not edit -/", "import Nstd.Args.CSemDmn", "",
+           "set_option linter.unusedVariables false", "", "namespace Nstd.Args.GenD", "open Nstd.Args Nstd.Args.C", "",
+           "/-- locals of `daemonize`; ghosts: the descriptor table, the log file's tag, what `::open` / `fork()` answer, the status passed to\n"
+           "    `exit`, whether `setsid()` was called -/", rec, "\n\n".join(blocks), "", "end Nstd.Args.GenD", ""]
+    return "\n".join(out)
+
+
 def generate_sel(repo):
     """ssize Process::read(void* buffer, usize length, uint& streams) (POSIX branch)"""
     cpp = posix_branch(scan((Path(repo) / "src/Process.cpp").read_text()))
@@ -1527,19 +1592,20 @@ def run(repo=None):
         ptext = generate_proc(repo)
         stext = generate_sel(repo)
         gtext = generate_str(repo)
+        dtext = generate_dmn(repo)
     except (Refuse, OSError, IndexError) as ex:
         return False, f"tools/gen_args.py refuses the current Process.cpp / Process.hpp / String.hpp (broken tie): {ex}"
     OUT.parent.mkdir(parents=True, exist_ok=True)
-    for out, t in ((OUT, text), (OUT_PROC, ptext), (OUT_SEL, stext), (OUT_STR, gtext)):
+    for out, t in ((OUT, text), (OUT_PROC, ptext), (OUT_SEL, stext), (OUT_STR, gtext), (OUT_DMN, dtext)):
         if not out.exists() or out.read_text() != t:
             out.write_text(t)
-    return True, hashlib.sha1((text + ptext + stext + gtext).encode()).hexdigest()[:12]
+    return True, hashlib.sha1((text + ptext + stext + gtext + dtext).encode()).hexdigest()[:12]
 
 
 def stats():
     """what the three generated files contain (evidence)"""
     out = {}
-    for f in (OUT, OUT_PROC, OUT_SEL, OUT_STR):
+    for f in (OUT, OUT_PROC, OUT_SEL, OUT_STR, OUT_DMN):
         if f.exists():
             t = f.read_text()
             out[f.name] = {"definitions": len(re.findall(r"(?m)^def ", t)), "loops": len(re.findall(r"(?m)^def \w+_loop\d+ ", t)),
@@ -1554,9 +1620,9 @@ def gen(ctx):
                                             "Process::Process", "Process::~Process", "isRunning", "kill", "join(uint32&)", "join()",
                                             "close(uint)", "exit", "read(buffer, len)", "write", "setEnvironmentVariable",
                                             "read(buffer, length, streams)", "String::length", "String::find(const char*, char)",
-                                            "String::compare(const char*, const char*, usize)"]}
+                                            "String::compare(const char*, const char*, usize)", "daemonize"]}
     if ok:
-        ctx.notes.append(f"translator: Nstd/Generated/ArgsCode.lean, ArgsProc.lean, ArgsSel.lean, ArgsStr.lean regenerated from the current Process.cpp / Process.hpp / String.hpp (sha1 {msg})")
+        ctx.notes.append(f"translator: Nstd/Generated/ArgsCode.lean, ArgsProc.lean, ArgsSel.lean, ArgsStr.lean, ArgsDmn.lean regenerated from the current Process.cpp / Process.hpp / String.hpp (sha1 {msg})")
     return ok, msg
 
 
